@@ -110,6 +110,8 @@ NC_reset_maxopenfiles(int req_max)
     if (!_cdfs) {
         if (req_max == 0)
             _cdfs_size = max_NC_open;
+        else if (req_max > sys_limit)
+            _cdfs_size = sys_limit; /* only allocate up to the system limit, as below */
         else
             _cdfs_size = req_max;
 
